@@ -194,6 +194,13 @@ def r1_nothing_dropped(chk, only_lhs=None, rule='C02.R1'):
                 if hit:
                     problems.append('p[%d] is placed in the tree on the branch where the test says it is None' % hit[0])
             tr = transforms_in(term)
+            re_ = sorted(set(x[6:] for x in tr if x.startswith('order.')))
+            tr = [x for x in tr if not x.startswith('order.')]
+            if re_:
+                problems.append('a list of parse values is passed through %s: its members are no longer the ones '
+                                'written, in the order and number in which they were written' % '/'.join(
+                                    'a comprehension that replaces or filters them' if x == 'comprehension' else x + '()'
+                                    for x in re_))
             if tr:
                 problems.append('a parse value is rewritten by str.%s(): the tree no longer shows what was written' %
                                 '/'.join(sorted(set(tr))))
@@ -757,5 +764,18 @@ def r10_class_tables_not_mutated(chk):
         r for r in chk.model.modules if r.startswith(('pysmi/lexer/', 'pysmi/parser/'))), floor=2)
 
 
+def r11_parts_reach_the_tree(chk, rule='C02.R11', only_lhs=None, floor=60):
+    """whether a clause that is written reaches the tree must not depend on another clause being written too"""
+    common.parts_reach_the_tree_whenever_present(chk, rule, all_shapes(chk), only_lhs=only_lhs, floor=floor,
+                                                 carries=carries_value)
+
+
+def r12_groupby_input_sorted(chk):
+    """repeated FROM clauses, repeated keys of any list the parser groups: grouping must not depend on adjacency"""
+    common.groupby_input_is_sorted(chk, 'C02.R12', sorted(r for r in chk.model.modules if r.startswith((
+        'pysmi/parser/', 'pysmi/codegen/'))), 'grammar actions')
+
+
+
 RULES = [r1_nothing_dropped, r2_list_idiom, r2b_operand_shapes, r3b_prepdata, r3_producer_consumer, r4_token_values, r5_layout, r6_entry_point,
-         r7_history_independence, r8_number_tokens, r9_identifier_classes, r10_class_tables_not_mutated]
+         r7_history_independence, r8_number_tokens, r9_identifier_classes, r10_class_tables_not_mutated, r11_parts_reach_the_tree, r12_groupby_input_sorted]
